@@ -60,8 +60,12 @@ class QRing:
 
     def fn(self, name, a):
         if a == 0:
+            if name == 'log':
+                raise Unsupported('log of zero')
             return {'exp': Fr(1), 'sin': Fr(0), 'cos': Fr(1), 'atan': Fr(0), 'tan': Fr(0), 'sinh': Fr(0), 'cosh': Fr(1)}[name]
-        raise Unsupported('%s of the non-zero constant %s is transcendental' % (name, a))
+        if name == 'log' and a == 1:
+            return Fr(0)
+        raise Unsupported('%s of the constant %s is transcendental' % (name, a))
 
     def sqrt(self, a):
         if a < 0:
@@ -243,6 +247,21 @@ class SRing:
             d = self.deriv(x)
             q = self.mul(d, self.inv(self.add(self.one(), self.mul(x, x))))
             return self.add(self.lift(self.base.fn('atan', x0)), self.integ(q))
+        if name == 'log':
+            if self.base.maybe_zero(x0):
+                raise Unsupported('log of an argument that vanishes at the expansion point (%s)' % self.var)
+            l0 = self.lift(self.base.fn('log', x0))
+            if self.known_zero(y):
+                return l0
+            u = self.mul(y, self.lift(self.base.inv(x0)))         # log(x0 (1 + u)) = log x0 + sum (-1)^(k+1) u^k / k
+            out, term, k = self.zero(), self.one(), 0
+            while k <= 4 * n + 4:
+                k += 1
+                term = self._trunc(self.mul(term, u), n)
+                if self.known_zero(term) or self.val(term) >= n:
+                    break
+                out = self.add(out, self.scale(term, Fr((-1) ** (k + 1), k)))
+            return self.add(l0, self._mk(out.c, min(out.prec, n)))
         if name == 'exp':
             e = self._expy(y, n, 'exp')
             return self.mul(self.lift(self.base.fn('exp', x0)), e) if not self.base.known_zero(x0) else e
